@@ -199,13 +199,16 @@ class MaxSumFactorComputation(DcopComputation):
           * cost is the sum of the costs received from all other factors
             except f for this value d for the domain.
         """
+        # If this message completes our cost table, nothing has been sent to
+        # any of our variables yet: the sender must get our costs too.
+        was_complete = len(self._costs) == len(self.factor.dimensions)
         self._costs[var_name] = msg.costs
 
         # Wait until we received costs from all our variables before sending
         # our own costs (if works without doing that, but results are worse)
         if len(self._costs) == len(self.factor.dimensions):
             for v in self.variables:
-                if v.name != var_name:
+                if v.name != var_name or not was_complete:
                     costs_v = maxsum.factor_costs_for_var(
                         self.factor, v, self._costs, self.mode
                     )
